@@ -8,6 +8,12 @@ ASSUMPTIONS = [
 ]
 
 CONF = {
+    "C14": {
+        "level": "fault_enumeration",
+        "rule": "rapid histories of 2..7 rounds: configuration moves (send-side pause, max body size around 132, zero-address messenger, mint/burn pause, ledger pause/blacklist/allowance/minter) then a transfer under test (valid deposit of either variant, possibly with a 31/33-byte caller; valid module-addressed receive; deposit+receive in one transaction); its dependency calls are counted in a dry run on a discarded branch and EVERY non-empty subset of those calls (<=3 calls, <=7 subsets) is failed in turn, each as its own transaction through the real SDK pipeline, followed by the unfaulted transaction; oracle: any failed dependency call or late validation failure => error, and after the real rollback raw KV of both stores and the block's event list are as before; success => debit, burn and message (resp. mint) all effective; non-trivial = failure that hit after something was already moved or marked (effective earlier call, or nonce write); distinct by (case shape, op, fault subset, failure kind)",
+        "quick": {"rapid": [("TestC14", 300, 1)]},
+        "thorough": {"rapid": [("TestC14", 2000, 16)]},
+    },
     "C15": {
         "rule": "rapid histories (5..35 ops) over all 25 transaction types (success and failure of each is required in every run), ledger changes, faults, multi-message transactions; a recording wrapper around the KVStoreService handed to the keeper logs every Set/Delete key per transaction; oracle: recorded keys and committed key diff of a successful transaction are inside the documented write set for that type and argument, failed transactions leave both stores byte-identical, all 19 queries and genesis export record no write; non-trivial = first success (or failure) of a transaction type within a case; distinct by (case shape, type, outcome)",
         "quick": {"rapid": [("TestC15", 400, 1)]},
@@ -84,6 +90,12 @@ CONF = {
 ALL = ["C%02d" % i for i in range(1, 21)]
 
 MANIFEST_TEXT = {
+    "C14": {
+        "technique": "fault injection enumerated over every non-empty subset of the dependency calls of each transfer (counted by dry run), at generated points of generated histories (rapid), with state/ledger/event comparison after the SDK's real rollback",
+        "level": "Fault enumeration: complete over subsets of the (<=3) dependency calls per transaction under test; histories and configurations are sampled.",
+        "note": "Rollback itself is cosmos-sdk's (runTx/cacheTxContext); the check decides that the module always asks for it and nothing escapes it.",
+        "ref": "DESIGN.md section 3 C14",
+    },
     "C15": {
         "technique": "stateful PBT (rapid) with a write-set recorder wrapped around the keeper's store service: recorded keys and committed diffs vs the documented write set per transaction type; queries/export must record nothing",
         "level": "Exploration over generated inputs and states; every transaction type must succeed and fail at least once per run. The 'statically for every code path' clause is not decided (DESIGN.md section 6).",
